@@ -133,6 +133,12 @@ def config_path(prog, rep):
                     d_expr = d_expr.args[0]
             tmpl = _name_template(n_expr, app) if n_expr is not None else None
             okd = d_expr is not None and norm(d_expr) in (f"dirs.get_config_dir({app})", f"get_config_dir({app})")
+            # ... looked up when load_config_toml runs: get_config_dir is a function that asks platformdirs on every call
+            dm = prog.module("aw_core.dirs")
+            gcd = dm.funcs.get("get_config_dir")
+            at_call = gcd is not None and any(isinstance(x, ast.Call) and norm(x.func).endswith("user_config_dir") for x in ast.walk(gcd.node))
+            at_import = [x for st in dm.tree.body if not isinstance(st, (ast.FunctionDef, ast.ClassDef)) for x in ast.walk(st) if isinstance(x, ast.Call) and norm(x.func).endswith("user_config_dir")]
+            rep.check(at_call and not at_import, "PATH", "aw_core.dirs.get_config_dir", "config directory resolved per call", "platformdirs.user_config_dir(...) inside get_config_dir", "the configuration directory is computed once at import time (platformdirs is asked at module level) instead of on every call: after XDG_CONFIG_HOME / the home directory changes, the user's existing file is not consulted and the template is written into the old directory", f"{dm.relpath}:{at_import[0].lineno if at_import else (gcd.node.lineno if gcd else 1)}")
             if tmpl is None or d_expr is None:
                 rep.undecided("PATH", fi.short, "config file name", f"cannot read the file name off `{txt[:110]}`", fi.loc(opens[0]))
             else:
@@ -149,8 +155,9 @@ def overlay(prog, rep):
         return
     lp = loops[0]
     k = norm(lp.target)
-    rets = [n for n in fi.node.body if isinstance(n, ast.Return)]
-    rep.check(len(rets) == 1 and norm(rets[0].value) == a, "OVERLAY", fi.short, "return", f"returns {a}", "does not return the overlaid first argument", fi.loc())
+    rets = [n for n in walk_own(fi.node) if isinstance(n, ast.Return)]
+    badr = [r for r in rets if r.value is None or norm(r.value) != a]
+    rep.check(bool(rets) and not badr, "OVERLAY", fi.short, "return", f"every return gives back {a}", f"`{norm(badr[0]) if badr else 'no return'}`: _merge does not always return the first argument it overlaid in place; a recursive call discards the result, so where the other object is returned (e.g. an empty default table) the user's keys never reach the configuration", fi.loc(badr[0]) if badr else fi.loc())
     # deletions
     dels = [n for n in ast.walk(fi.node) if isinstance(n, ast.Delete) or (isinstance(n, ast.Call) and isinstance(n.func, ast.Attribute) and norm(n.func.value) == a and n.func.attr in ("pop", "clear", "popitem"))]
     rep.check(not dels, "OVERLAY", fi.short, "no deletion", "no key of the defaults is deleted", f"keys of the first argument are deleted ({norm(dels[0]) if dels else ''})", fi.loc())
